@@ -96,11 +96,27 @@ fn four_reps<S: Sc>(d: &mut Draw) -> Outcome {
     let ql = [p, q, r];
     ensure_eq!(Matrix3::from(ql.iter().product::<Quaternion<S>>()), want3, "product-quaternion-refs", "Product over &Quaternion");
     ensure_eq!(Matrix3::from(ql.iter().cloned().product::<Quaternion<S>>()), want3, "product-quaternion-values", "Product over Quaternion");
+    ensure_eq!(Matrix3::from(ql[..1].iter().product::<Quaternion<S>>()), pm, "product-quaternion-single", "Product of one Quaternion");
+    ensure_eq!(Matrix3::from(ql[..0].iter().product::<Quaternion<S>>()), Matrix3::identity(), "product-quaternion-empty", "empty Product of Quaternion is the identity");
+    // the same lists from iterators that do not know their length (filter), that are driven by a closure (from_fn), or chained
+    ensure_eq!(Matrix3::from(ql.iter().filter(|_| true).product::<Quaternion<S>>()), want3, "product-quaternion-unsized-refs", "Product over a filtered iterator of &Quaternion");
+    ensure_eq!(Matrix3::from(ql.iter().cloned().filter(|_| true).product::<Quaternion<S>>()), want3, "product-quaternion-unsized-values", "Product over a filtered iterator of Quaternion");
+    {
+        let mut k = 0usize;
+        let f: Quaternion<S> = std::iter::from_fn(|| { k += 1; ql.get(k - 1) }).product();
+        ensure_eq!(Matrix3::from(f), want3, "product-quaternion-from_fn-refs", "Product over a from_fn iterator of &Quaternion");
+        let c: Quaternion<S> = ql[..1].iter().chain(ql[1..].iter()).product();
+        ensure_eq!(Matrix3::from(c), want3, "product-quaternion-chained", "Product over chained slices of &Quaternion");
+    }
     let ml = [pm, m3, Matrix3::from(r)];
     ensure_eq!(ml.iter().product::<Matrix3<S>>(), want3, "product-matrix3-refs", "Product over &Matrix3");
     ensure_eq!(ml.iter().cloned().product::<Matrix3<S>>(), want3, "product-matrix3-values", "Product over Matrix3");
+    ensure_eq!(ml.iter().filter(|_| true).product::<Matrix3<S>>(), want3, "product-matrix3-unsized-refs", "Product over a filtered iterator of &Matrix3");
+    ensure_eq!(ml.iter().cloned().filter(|_| true).product::<Matrix3<S>>(), want3, "product-matrix3-unsized-values", "Product over a filtered iterator of Matrix3");
     let ml4 = [Matrix4::from(p), m4, Matrix4::from(r)];
     ensure_eq!(ml4.iter().product::<Matrix4<S>>(), Matrix4::from(p * q * r), "product-matrix4-refs", "Product over &Matrix4");
+    ensure_eq!(ml4.iter().cloned().product::<Matrix4<S>>(), Matrix4::from(p * q * r), "product-matrix4-values", "Product over Matrix4");
+    ensure_eq!(ml4.iter().filter(|_| true).product::<Matrix4<S>>(), Matrix4::from(p * q * r), "product-matrix4-unsized-refs", "Product over a filtered iterator of &Matrix4");
     // composition through the Transform entry points of the matrices (by value and in place), and in-place rotation products
     {
         use cgmath::{Point2, Point3, Transform};
